@@ -578,7 +578,7 @@ func vLkDescribe(c *vh.Case, res *vLkResult, d *vLkDerived) {
 }
 
 func TestVerif_C01_lookup(t *testing.T) {
-	vh.Run(t, vh.Spec{Prop: "C01", Unit: "lookup", Quick: 600, Thorough: 40000, CostMs: 25,
+	vh.Run(t, vh.Spec{Prop: "C01", Unit: "lookup", Quick: 3000, Thorough: 60000, CostMs: 25,
 		Rule: "PRNG networks (N 1-500, thorough up to 2000; K in {1,2,3,5,8,20}, alpha in {1,2,3,10}, beta in {1,2,3,K}; knowledge full/kbucket/sparse; 0-60% peers failing by dial/request/silence; liars adding self, duplicates, strangers, 200-entry lists; optional pure query filter; 20% cancelled at a PRNG instant), one GetClosestPeers each in virtual time; oracle over lookup events + simulated wire log; non-trivial = uncancelled, >= 2 hops and (>= 1 failure or more than K learned); distinct by (shape, behaviour mix, response arrival order)",
 		Clauses: []string{"at-most-k", "ascending", "seeds-are-k-nearest-of-table", "result-is-k-nearest-of-learned", "result-not-failed", "heard-is-filtered-answer", "unreachable-iff-failed", "waiting-then-contact", "asked-at-most-once", "cancelled-result-learned"}},
 		func(c *vh.Case) {
@@ -596,7 +596,7 @@ func TestVerif_C01_lookup(t *testing.T) {
 }
 
 func TestVerif_C01_diversity(t *testing.T) {
-	vh.Run(t, vh.Spec{Prop: "C01", Unit: "diversity", Quick: 250, Thorough: 12000, CostMs: 30,
+	vh.Run(t, vh.Spec{Prop: "C01", Unit: "diversity", Quick: 1000, Thorough: 20000, CostMs: 30,
 		Rule: "as unit lookup, with the routing-table IP-diversity filter configured (per-group table limit 1-3, reused by lookups to drop over-represented groups from each response) and simulated peers clustered into 2-12 /16 groups; the oracle additionally recomputes, per response, which entries of the first 2K belong to a group with more than `limit` distinct peers in that answer (monitor's own /16 arithmetic) and requires heard = the rest, filtered; non-trivial = uncancelled, >= 2 hops and at least one response lost entries to the diversity rule; distinct by (shape, arrival order)",
 		Clauses: []string{"heard-is-filtered-answer", "diversity-drop", "result-is-k-nearest-of-learned"}},
 		func(c *vh.Case) {
@@ -698,7 +698,7 @@ func vOracleC02(c *vh.Case, res *vLkResult, d *vLkDerived) {
 }
 
 func TestVerif_C02_converge(t *testing.T) {
-	vh.Run(t, vh.Spec{Prop: "C02", Unit: "converge", Quick: 400, Thorough: 20000, CostMs: 30,
+	vh.Run(t, vh.Spec{Prop: "C02", Unit: "converge", Quick: 2000, Thorough: 40000, CostMs: 30,
 		Rule: "PRNG networks in which every peer answers with the K nearest peers it knows and knowledge satisfies the k-bucket completeness hypothesis (kbucket(K)) or is full; any non-empty seed table, (K,alpha,beta) as C01, latencies 1-400 ms deciding arrival order; uncancelled GetClosestPeers; oracle vs the global simulated peer set + event stream + wire log; non-trivial = >= 2 hops and N > K; distinct by (shape, arrival order)",
 		Clauses: []string{"global-nearest-first", "full-knowledge-exact", "beta-nearest-answered", "every-returned-peer-asked"}},
 		func(c *vh.Case) {
@@ -717,7 +717,7 @@ func TestVerif_C02_converge(t *testing.T) {
 
 // C02(e), second half: cancelled lookups leave the refresh stamps alone.
 func TestVerif_C02_sideeffects(t *testing.T) {
-	vh.Run(t, vh.Spec{Prop: "C02", Unit: "sideeffects", Quick: 200, Thorough: 6000, CostMs: 25,
+	vh.Run(t, vh.Spec{Prop: "C02", Unit: "sideeffects", Quick: 600, Thorough: 10000, CostMs: 25,
 		Rule: "C01-style networks with all peers answering slowly (50-400 ms) and the lookup cancelled at a PRNG instant (half the cases) or left alone; oracle: the bucket-refresh stamps (non-zero entries of GetTrackedCplsForRefresh) change only when the lookup completed; non-trivial = the lookup had made at least one request when it was cancelled; distinct by (shape, cancel instant)",
 		Clauses: []string{"cancelled-leaves-stamps", "completed-stamps-bucket"}},
 		func(c *vh.Case) {
